@@ -1072,6 +1072,8 @@ class SyncObj(object):
 
     def __onNodeConnected(self, node):
         self.__connectedNodes.add(node)
+        # a new connection never carries on a snapshot transfer: chunks sent before may be lost
+        self.__serializer.cancelTransmisstion(node)
 
     def __onNodeDisconnected(self, node):
         self.__connectedNodes.discard(node)
